@@ -149,6 +149,29 @@ func runOnceF(t *testing.T, sc *Scenario, tape *sim.Tape, tier string, keep bool
 			}
 		}
 	}
+	// a panic in a goroutine of the library (or in the caller's goroutine inside a library call) ends
+	// the user's process: whatever the property, the run cannot count as "held"
+	if sc.Prop != "C20" {
+		hasPanicSig := false
+		for _, v := range res.Violations {
+			if strings.Contains(v.Sig, "panic") {
+				hasPanicSig = true
+			}
+		}
+		if !hasPanicSig {
+			for _, e := range res.LibEvents {
+				if strings.HasPrefix(e, "panic in ") && !strings.Contains(e, "handler panic") {
+					where := e
+					if i := strings.Index(e, " ["); i > 0 {
+						where = e[:i]
+					}
+					res.Violations = append(res.Violations, sim.Violation{Sig: sc.Prop + "|panic|" + strings.ReplaceAll(where, " ", "-"),
+						Msg: e + "\n" + strings.Join(res.Notes, "\n"), Step: res.Steps})
+					break
+				}
+			}
+		}
+	}
 	if ctx != nil {
 		res.Plan = ctx.Plan
 	}
